@@ -36,8 +36,16 @@ structure Chk where
   inPending : Bool := false
   /-- `m_CheckRunning` (checkable.hpp:224) -/
   running : Bool := false
-  /-- `ExecuteCheckHelper` calls dispatched by the scheduler that have not reached the guard yet -/
+  /-- `ExecuteCheckHelper` calls dispatched by the scheduler that have not yet done `ExecuteCheck`'s early `UpdateNextCheck()`
+      (checkable-check.cpp:578-584) -/
   hq : Nat := 0
+  /-- helpers past that early `UpdateNextCheck()` that have not reached the single-flight guard yet -/
+  hu : Nat := 0
+  /-- ghost: the scheduler's clock at the earliest dispatch whose helper is still outstanding -/
+  dispatchedAt : Int := 0
+  /-- ghost: somebody other than the scheduler's own machinery (API action, external command, cluster event … — `setNextCheck`) has
+      written `next_check` since that dispatch -/
+  foreign : Bool := false
   /-- helpers past a successful `m_CheckRunning` test-and-set whose command function is still running: a synchronous
       command body, or a plugin command before it has spawned its process -/
   hx : Nat := 0
@@ -102,8 +110,17 @@ def objectHandler (x : Chk) : Chk :=
     else x.idleInsert                -- :308
   else { x with inIdle := false, inPending := false }   -- :310-311
 
-/-- `SetNextCheck` attribute write (outside `m_Mutex`) -/
-def setNextCheck (x : Chk) (v : Int) : Chk := { x with nextCheck := v, keySynced := false }
+/-- `SetNextCheck` attribute write (outside `m_Mutex`) by an outside party with an arbitrary value: reschedule-check API action,
+    external command, cluster event -/
+def setNextCheck (x : Chk) (v : Int) : Chk := { x with nextCheck := v, keySynced := false, foreign := true }
+
+/-- `Checkable::UpdateNextCheck()` called by the scheduler's own machinery — result processing (checkable-check.cpp:384), the skip
+    path of the scheduler (checkercomponent.cpp:189): `SetNextCheck(v)` with `v` after the clock it read (`next_check_window`) -/
+def ownResched (x : Chk) (v : Int) : Chk := { x with nextCheck := v, keySynced := false }
+
+/-- `Checkable::ExecuteCheck`'s early, unconditional `UpdateNextCheck()` (checkable-check.cpp:578-584, BEFORE the single-flight
+    guard): the helper re-arms the checkable and goes on towards the guard -/
+def rearm (x : Chk) (v : Int) : Chk := { x with nextCheck := v, keySynced := false, hq := x.hq - 1, hu := x.hu + 1 }
 
 /-- `CheckerComponent::NextCheckChangedHandler`, checkercomponent.cpp:326-345: re-index if idle -/
 def nextCheckChanged (x : Chk) : Chk :=
@@ -122,21 +139,24 @@ def skips (forced reach enabled inPeriod : Bool) : Bool :=
 /-- the guard set applied to the recorded facts -/
 def skipsIn (forced : Bool) (i : SkipIn) : Bool := skips forced i.depOk i.enabled i.inPeriod
 
-/-- CheckThreadProc:133 + :196-217: erase from idle, insert into pending, clear force, dispatch a helper. -/
-def pick (x : Chk) : Chk :=
-  { x with inIdle := false, inPending := true, forced := false, hq := x.hq + 1 }
+/-- CheckThreadProc:133 + :196-217: erase from idle, insert into pending, clear force, dispatch a helper.  Ghosts: if no helper of
+    this checkable is outstanding, this dispatch is the earliest one and nobody has interfered with `next_check` since. -/
+def pick (x : Chk) (now : Int) : Chk :=
+  { x with inIdle := false, inPending := true, forced := false, hq := x.hq + 1,
+           dispatchedAt := if x.hq + x.hu + x.hx + x.hs + x.hr + x.hd = 0 then now else x.dispatchedAt,
+           foreign := if x.hq + x.hu + x.hx + x.hs + x.hr + x.hd = 0 then false else x.foreign }
 
 /-- CheckThreadProc:133 + :176-177: erase from idle and re-insert (with the current next_check). -/
 def skip (x : Chk) : Chk := { x with inIdle := true, idleKey := x.nextCheck }
 
 /-- the scheduler's critical section on the chosen entry -/
-def sched (x : Chk) (i : SkipIn) : Chk :=
-  if skipsIn x.forced i then x.skip else x.pick
+def sched (x : Chk) (now : Int) (i : SkipIn) : Chk :=
+  if skipsIn x.forced i then x.skip else x.pick now
 
 /-- `Checkable::ExecuteCheck` test-and-set, checkable-check.cpp:580-592 -/
 def helperGuard (x : Chk) : Chk :=
-  if x.running then { x with hq := x.hq - 1, hr := x.hr + 1 }          -- :584-585 return
-  else { x with running := true, hq := x.hq - 1, hx := x.hx + 1 }       -- :587
+  if x.running then { x with hu := x.hu - 1, hr := x.hr + 1 }          -- :584-585 return
+  else { x with running := true, hu := x.hu - 1, hx := x.hx + 1 }       -- :587
 
 /-- `ProcessCheckResult` called by the execution itself (command function / exception path of
     ExecuteCheckHelper:235-251): checkable-check.cpp:103-106 resets the flag; `ExecuteCheck` returns. -/
@@ -177,17 +197,17 @@ def helperFinish (x : Chk) : Chk :=
 
 /-- units of `m_PendingChecks` held on behalf of this checkable: one per helper that has not decremented yet, plus
     PluginCheckTask's own balance -/
-def units (x : Chk) : Int := (x.hq + x.hx + x.hs + x.hr : Nat) + x.pbal
+def units (x : Chk) : Int := (x.hq + x.hu + x.hx + x.hs + x.hr : Nat) + x.pbal
 
 /-- helpers that may still start a process or are running a command body, plus running processes: what
     `max_concurrent_checks` really bounds -/
-def slots (x : Chk) : Int := (x.hq + x.hx + x.procs : Nat)
+def slots (x : Chk) : Int := (x.hq + x.hu + x.hx + x.procs : Nat)
 
 /-- command executions of this checkable that are running right now (command bodies and plugin processes) -/
 def execs (x : Chk) : Nat := x.hx + x.procs
 
 /-- `ExecuteCheckHelper` calls dispatched for this checkable that have not passed their final critical section yet -/
-def helpers (x : Chk) : Nat := x.hq + x.hx + x.hs + x.hr + x.hd
+def helpers (x : Chk) : Nat := x.hq + x.hu + x.hx + x.hs + x.hr + x.hd
 
 /-- nothing of this checkable is in flight: no helper, no plugin process, no result on its way -/
 def settled (x : Chk) : Bool := x.helpers == 0 && x.procs == 0 && x.pz == 0
@@ -211,6 +231,10 @@ inductive Act where
   | setPaused (c : Nat) (b : Bool)
   | objectHandler (c : Nat)
   | setNextCheck (c : Nat) (v : Int)
+  /-- `UpdateNextCheck()` by the scheduler's own machinery (result processing, skip path) at clock `now`, yielding `v` -/
+  | ownResched (c : Nat) (now v : Int)
+  /-- `ExecuteCheck`'s early `UpdateNextCheck()` at clock `now`, yielding `v`; the helper goes on towards the guard -/
+  | rearm (c : Nat) (now v : Int)
   | nextCheckChanged (c : Nat)
   | force (c : Nat)
   | sched (c : Nat) (now : Int) (i : SkipIn)
@@ -252,15 +276,20 @@ def step (s : St) : Act → Option St
   | .setPaused c b => if c < s.n then some (s.upd c ((s.chk c).setPaused b)) else none
   | .objectHandler c => if c < s.n then some (s.upd c (s.chk c).objectHandler) else none
   | .setNextCheck c v => if c < s.n then some (s.upd c ((s.chk c).setNextCheck v)) else none
+  -- `UpdateNextCheck` reads the clock (monotone: not before the clock of any earlier dispatch) and yields a later value
+  | .ownResched c now v =>
+    if c < s.n ∧ (s.chk c).dispatchedAt ≤ now ∧ now < v then some (s.upd c ((s.chk c).ownResched v)) else none
+  | .rearm c now v =>
+    if c < s.n ∧ 0 < (s.chk c).hq ∧ (s.chk c).dispatchedAt ≤ now ∧ now < v then some (s.upd c ((s.chk c).rearm v)) else none
   | .nextCheckChanged c => if c < s.n then some (s.upd c (s.chk c).nextCheckChanged) else none
   | .force c => if c < s.n then some (s.upd c (s.chk c).force) else none
   | .sched c now i =>
     if schedEnabled s c now then
       let x := s.chk c
       if Chk.skipsIn x.forced i then some (s.upd c x.skip)
-      else some { s.upd c x.pick with counter := s.counter + 1 }     -- :217 IncreasePendingChecks
+      else some { s.upd c (x.pick now) with counter := s.counter + 1 }     -- :217 IncreasePendingChecks
     else none
-  | .helperGuard c => if c < s.n ∧ 0 < (s.chk c).hq then some (s.upd c (s.chk c).helperGuard) else none
+  | .helperGuard c => if c < s.n ∧ 0 < (s.chk c).hu then some (s.upd c (s.chk c).helperGuard) else none
   | .result c => if c < s.n ∧ 0 < (s.chk c).hx then some (s.upd c (s.chk c).result) else none
   | .spawn c => if c < s.n ∧ 0 < (s.chk c).hx then some (s.upd c (s.chk c).spawn) else none
   | .pluginInc c =>
